@@ -385,9 +385,10 @@ func deextract(repo string, cfg BuildConfig, ref symTable, overlay map[string][]
 				}
 				return false
 			}
-			for _, site := range findClosureVars(pkgs) {
-				if !changedAny {
-					break
+			freshVars := freshClosureVars(ref, cfg.Name, pkgs)
+			for _, site := range findClosureVars(pkgs, freshVars) {
+				if !changedAny && !freshVars[closureVarObj(site)] {
+					continue
 				}
 				if inPending(site.file, site.decl.Pos()) {
 					continue
@@ -397,28 +398,85 @@ func deextract(repo string, cfg BuildConfig, ref symTable, overlay map[string][]
 					continue
 				}
 				fset := site.pkg.Fset
-				ds, de := fset.Position(site.decl.Pos()).Offset, fset.Position(site.decl.End()).Offset
-				us, ue := fset.Position(site.use.Pos()).Offset, fset.Position(site.use.End()).Offset
-				ls, le := fset.Position(site.lit.Pos()).Offset, fset.Position(site.lit.End()).Offset
+				off := func(p token.Pos) int { return fset.Position(p).Offset }
+				ds, de := off(site.decl.Pos()), off(site.decl.End())
+				ls, le := off(site.lit.Pos()), off(site.lit.End())
+				uses := append([]*ast.Ident{site.use}, site.more...)
+				last := uses[len(uses)-1]
 				if os.Getenv("VERIF_DEBUG_NORMALIZE") != "" {
-					fmt.Fprintf(os.Stderr, "closure variable %s:%d ds=%d de=%d us=%d ue=%d ls=%d le=%d overlap=%v\n", fname, fset.Position(site.decl.Pos()).Line, ds, de, us, ue, ls, le, overlaps(fname, ds, ue))
+					fmt.Fprintf(os.Stderr, "closure variable %s:%d uses=%d aliases=%d overlap=%v\n", fname, fset.Position(site.decl.Pos()).Line, len(uses), len(site.alias), overlaps(fname, ds, off(last.End())))
 				}
-				if ds < 0 || de > len(content) || us < de || ue > len(content) || ls < ds || le > de || overlaps(fname, ds, ue) {
+				if ds < 0 || de > len(content) || off(site.use.Pos()) < de || off(last.End()) > len(content) || ls < ds || le > de || overlaps(fname, ds, off(last.End())) {
 					continue
 				}
-				lit := append([]byte("("), content[ls:le]...)
+				// the literal's text, captured variables that are hidden at a call reached through their pointer
+				litText := append([]byte{}, content[ls:le]...)
+				type rep struct {
+					s, e int
+					text string
+				}
+				var reps []rep
+				var aliasDecl []byte
+				for _, al := range site.alias {
+					for _, id := range al.idents {
+						reps = append(reps, rep{off(id.Pos()) - ls, off(id.End()) - ls, "(*" + al.name + ")"})
+					}
+					aliasDecl = append(aliasDecl, []byte(al.name+" := &"+al.target+"; _ = "+al.name+"; ")...)
+				}
+				sort.Slice(reps, func(i, j int) bool { return reps[i].s > reps[j].s })
+				okReps := true
+				for _, r := range reps {
+					if r.s < 0 || r.e > len(litText) || r.s > r.e {
+						okReps = false
+						break
+					}
+					litText = append(append(append([]byte{}, litText[:r.s]...), []byte(r.text)...), litText[r.e:]...)
+				}
+				if !okReps {
+					continue
+				}
+				lit := append([]byte("("), litText...)
 				lit = append(lit, ')')
-				// two edits: the declaration disappears, the use becomes the literal; reserve the whole range
-				between := append([]byte{}, content[de:us]...)
-				for _, st := range site.drop {
-					bs, be := fset.Position(st.Pos()).Offset, fset.Position(st.End()).Offset
-					if bs >= de && be <= us {
-						for i := bs - de; i < be-de; i++ {
-							between[i] = ' ' // the `_ = f` statement goes with the variable
-						}
+				// the edits: the declaration disappears (the pointers stay in its place), every call names the literal;
+				// the text between them is reserved with the `_ = f` statements blanked
+				type edit struct {
+					s, e int
+					text []byte
+				}
+				edits := []edit{{ds, de, aliasDecl}}
+				for _, u := range uses {
+					edits = append(edits, edit{off(u.Pos()), off(u.End()), lit})
+				}
+				sort.Slice(edits, func(i, j int) bool { return edits[i].s < edits[j].s })
+				valid := true
+				for i := 1; i < len(edits); i++ {
+					if edits[i].s < edits[i-1].e {
+						valid = false
 					}
 				}
-				perFile[fname] = append(perFile[fname], span{ds, de, nil}, span{us, ue, lit}, span{de, us, between})
+				if !valid {
+					continue
+				}
+				for i, e := range edits {
+					if len(e.text) == 0 {
+						perFile[fname] = append(perFile[fname], span{e.s, e.e, nil})
+					} else {
+						perFile[fname] = append(perFile[fname], span{e.s, e.e, e.text})
+					}
+					if i+1 < len(edits) {
+						gs, ge := e.e, edits[i+1].s
+						between := append([]byte{}, content[gs:ge]...)
+						for _, st := range site.drop {
+							bs, be := off(st.Pos()), off(st.End())
+							if bs >= gs && be <= ge {
+								for k := bs - gs; k < be-gs; k++ {
+									between[k] = ' ' // the `_ = f` statement goes with the variable
+								}
+							}
+						}
+						perFile[fname] = append(perFile[fname], span{gs, ge, between})
+					}
+				}
 			}
 			for _, site := range findIIFEs(pkgs) {
 				if !changedAny {
@@ -1245,9 +1303,69 @@ type closureVarSite struct {
 	lit  ast.Expr // the function literal, or a method value / function name the variable was bound to
 	use  *ast.Ident
 	drop []ast.Stmt // `_ = f` statements (what the inliner adds to keep an unused binding legal)
+	// a helper closure the reference tree does not have, called at several places: every call becomes a call of a copy
+	// of the literal (more: the calls after the first)
+	more []*ast.Ident
+	// captured variables that another declaration of the same name hides at one of the calls (the packet of a type
+	// switch): the copies reach them through a pointer taken where the literal stood
+	alias []closureAlias
 }
 
-func findClosureVars(pkgs map[string]*packages.Package) []closureVarSite {
+type closureAlias struct {
+	name   string       // the pointer variable
+	target string       // the captured variable
+	idents []*ast.Ident // its occurrences in the literal
+}
+
+// freshClosureVars: the local variables bound to a function literal that the reference tree's version of the same
+// function does not have (by name).
+func freshClosureVars(ref symTable, cfg string, pkgs map[string]*packages.Package) map[types.Object]bool {
+	out := map[types.Object]bool{}
+	for path, pk := range pkgs {
+		if !strings.HasPrefix(path, pkgSftp) || strings.Contains(path, "/examples/") || pk.TypesInfo == nil {
+			continue
+		}
+		for _, f := range pk.Syntax {
+			for _, d := range f.Decls {
+				fd, ok := d.(*ast.FuncDecl)
+				if !ok || fd.Body == nil {
+					continue
+				}
+				key := path + "|" + fd.Name.Name
+				if fd.Recv != nil && len(fd.Recv.List) == 1 {
+					t := fd.Recv.List[0].Type
+					if st, ok := t.(*ast.StarExpr); ok {
+						t = st.X
+					}
+					if ix, ok := t.(*ast.IndexExpr); ok {
+						t = ix.X
+					}
+					if id, ok := t.(*ast.Ident); ok {
+						key = path + "|" + id.Name + "." + fd.Name.Name
+					}
+				}
+				e := ref[key]
+				if e == nil || !hasCfg(e, cfg) {
+					continue
+				}
+				known := map[string]bool{}
+				for _, n := range e.Closures {
+					known[n] = true
+				}
+				for _, id := range closureVarIdents(fd.Body) {
+					if !known[id.Name] {
+						if o := pk.TypesInfo.Defs[id]; o != nil {
+							out[o] = true
+						}
+					}
+				}
+			}
+		}
+	}
+	return out
+}
+
+func findClosureVars(pkgs map[string]*packages.Package, freshVars map[types.Object]bool) []closureVarSite {
 	var out []closureVarSite
 	for path, pk := range pkgs {
 		if !strings.HasPrefix(path, pkgSftp) || strings.Contains(path, "/examples/") || pk.TypesInfo == nil {
@@ -1355,16 +1473,97 @@ func findClosureVars(pkgs map[string]*packages.Package) []closureVarSite {
 					}
 					us = append(us, u)
 				}
-				if len(us) != 1 || !callFun[us[0]] {
+				if len(us) == 0 {
 					return
 				}
-				if us[0].Pos() >= lit.Pos() && us[0].End() <= lit.End() {
-					return // recursion through the variable
+				if len(us) > 1 {
+					if _, isLit := lit.(*ast.FuncLit); !isLit || !freshVars[obj] || mutated[obj] {
+						return
+					}
 				}
-				if us[0].Pos() < st.End() {
-					return
+				for _, u := range us {
+					if !callFun[u] {
+						return
+					}
+					if u.Pos() >= lit.Pos() && u.End() <= lit.End() {
+						return // recursion through the variable
+					}
+					if u.Pos() < st.End() {
+						return
+					}
 				}
-				out = append(out, closureVarSite{pk, f, st, lit, us[0], drop})
+				sort.Slice(us, func(i, j int) bool { return us[i].Pos() < us[j].Pos() })
+				site := closureVarSite{pkg: pk, file: f, decl: st, lit: lit, use: us[0], drop: drop, more: us[1:]}
+				if len(us) > 1 {
+					// what the literal captures must mean the same thing at every call
+					type occ struct {
+						obj types.Object
+						ids []*ast.Ident
+					}
+					var free []*occ
+					byObj := map[types.Object]*occ{}
+					bad := false
+					ast.Inspect(lit, func(n ast.Node) bool {
+						id, ok := n.(*ast.Ident)
+						if !ok {
+							return true
+						}
+						o := info.Uses[id]
+						if o == nil || o.Pkg() == nil {
+							return true
+						}
+						if v, ok := o.(*types.Var); ok && v.IsField() {
+							return true
+						}
+						if _, ok := o.(*types.PkgName); ok {
+							// an import hidden by a local name at the call would be another thing: checked like the rest
+						}
+						if o.Pos() >= lit.Pos() && o.Pos() < lit.End() {
+							return true // the literal's own
+						}
+						if fn, ok := o.(*types.Func); ok && fn.Type().(*types.Signature).Recv() != nil {
+							return true // a method name in a selector
+						}
+						oc := byObj[o]
+						if oc == nil {
+							oc = &occ{obj: o}
+							byObj[o] = oc
+							free = append(free, oc)
+						}
+						oc.ids = append(oc.ids, id)
+						return true
+					})
+					for _, oc := range free {
+						hidden := false
+						for _, u := range us {
+							inner := pk.Types.Scope().Innermost(u.Pos())
+							if inner == nil {
+								bad = true
+								break
+							}
+							if _, found := inner.LookupParent(oc.obj.Name(), u.Pos()); found != oc.obj {
+								hidden = true
+							}
+						}
+						if !hidden {
+							continue
+						}
+						v, isVar := oc.obj.(*types.Var)
+						if !isVar || v.Parent() == nil || v.Parent() == pk.Types.Scope() {
+							bad = true // a function, type, constant, import or package-level variable hidden at a call
+							break
+						}
+						site.alias = append(site.alias, closureAlias{
+							name:   fmt.Sprintf("__cv%d_%d", pk.Fset.Position(st.Pos()).Offset, len(site.alias)),
+							target: oc.obj.Name(),
+							idents: oc.ids,
+						})
+					}
+					if bad {
+						return
+					}
+				}
+				out = append(out, site)
 			}
 			ast.Inspect(f, func(n ast.Node) bool {
 				var list []ast.Stmt
@@ -1406,6 +1605,26 @@ func findClosureVars(pkgs map[string]*packages.Package) []closureVarSite {
 		}
 	}
 	return out
+}
+
+func closureVarObj(site closureVarSite) types.Object {
+	var id *ast.Ident
+	switch x := site.decl.(type) {
+	case *ast.AssignStmt:
+		if len(x.Lhs) == 1 {
+			id, _ = x.Lhs[0].(*ast.Ident)
+		}
+	case *ast.DeclStmt:
+		if gd, ok := x.Decl.(*ast.GenDecl); ok && len(gd.Specs) == 1 {
+			if vs, ok := gd.Specs[0].(*ast.ValueSpec); ok && len(vs.Names) == 1 {
+				id = vs.Names[0]
+			}
+		}
+	}
+	if id == nil || site.pkg.TypesInfo == nil {
+		return nil
+	}
+	return site.pkg.TypesInfo.Defs[id]
 }
 
 // applyClosureVar returns the file content with the variable dropped and the literal called in its place.
